@@ -140,10 +140,14 @@ impl wire::Decode for NodeAnnouncement {
         let alias = wire::Decode::decode(reader)?;
         let addresses = BoundedVec::<Address, ADDRESS_LIMIT>::decode(reader)?;
         let nonce = u64::decode(reader)?;
-        let agent = match UserAgent::decode(reader) {
-            Ok(ua) => ua,
-            Err(e) if e.is_eof() => UserAgent::default(),
-            Err(e) => return Err(e),
+        // Nb. The user agent is optional: older nodes don't send it. It is only
+        // absent if there is *nothing* after the nonce; a user agent that is cut
+        // short is an error, not a missing field.
+        let mut first = [0u8; 1];
+        let agent = if reader.read(&mut first)? == 0 {
+            UserAgent::default()
+        } else {
+            UserAgent::decode(&mut io::Read::chain(&first[..], &mut *reader))?
         };
 
         Ok(Self {
